@@ -107,6 +107,69 @@ func compressParts(ext string, data []byte, cut int) []byte {
 	return compress(ext, data)
 }
 
+// tarHugeSize rewrites, in a tar stream, the size field of the first entry whose name contains
+// `name` to a GNU base-256 number far beyond anything that exists (checksum kept valid)
+func tarHugeSize(t []byte, name string, size uint64) []byte {
+	t = append([]byte{}, t...)
+	for off := 0; off+512 <= len(t); {
+		h := t[off : off+512]
+		if h[0] == 0 {
+			break
+		}
+		var sz int64
+		for _, c := range strings.Trim(string(h[124:136]), " \x00") {
+			sz = sz*8 + int64(c-'0')
+		}
+		if strings.Contains(strings.TrimRight(string(h[0:100]), "\x00"), name) {
+			for i := 124; i < 136; i++ {
+				h[i] = 0
+			}
+			h[124] = 0x80
+			for i := 0; i < 8; i++ {
+				h[135-i] = byte(size >> (8 * uint(i)))
+			}
+			for i := 148; i < 156; i++ {
+				h[i] = ' '
+			}
+			sum := 0
+			for _, c := range h {
+				sum += int(c)
+			}
+			copy(h[148:156], fmt.Sprintf("%06o\x00 ", sum))
+			return t
+		}
+		off += 512 + int((sz+511)/512)*512
+	}
+	return t
+}
+
+// zstdRawFrame writes data as one zstd frame of raw (stored) blocks whose header declares a
+// window of 2^windowLog bytes - what `zstd --ultra -22` / `--long` produce for the header,
+// whatever the payload size (RFC 8878 3.1.1)
+func zstdRawFrame(data []byte, windowLog int) []byte {
+	out := []byte{0x28, 0xB5, 0x2F, 0xFD, 0x00, byte((windowLog - 10) << 3)}
+	for {
+		n := len(data)
+		if max := 1 << windowLog; n > max {
+			n = max // Block_Maximum_Size is the smaller of the window size and 128 KiB
+		}
+		if n > 65536 {
+			n = 65536
+		}
+		last := 0
+		if n == len(data) {
+			last = 1
+		}
+		v := last | n<<3
+		out = append(out, byte(v), byte(v>>8), byte(v>>16))
+		out = append(out, data[:n]...)
+		data = data[n:]
+		if last == 1 {
+			return out
+		}
+	}
+}
+
 type tarFile struct {
 	Name string
 	Body string
@@ -405,6 +468,7 @@ type debModel struct {
 	BinaryText  string
 	CtlCut      int // > 0: the control tar is compressed in two parts cut here (see compressParts)
 	DataCut     int
+	ZstWindow   int // > 0: zstd members are raw-block frames declaring a window of 2^ZstWindow bytes
 }
 
 func genDebModel(r *core.Rand) debModel {
@@ -448,16 +512,27 @@ func genDebModel(r *core.Rand) debModel {
 			m.DataCut = cutOf(len(buildTar(m.DataFiles)))
 		}
 	}
+	if (m.CtlExt == ".zst" || m.DataExt == ".zst") && r.Chance(1, 6) {
+		// frame headers as high compression levels and long-distance matching write them
+		m.ZstWindow = r.Pick2(r.Range(10, 23), r.Range(24, 27))
+	}
 	for n := r.Intn(3); n > 0 && r.Chance(1, 2); n-- {
 		m.Extra = append(m.Extra, arMember{Name: r.Pick([]string{"_gpgbuilder", "_extra", "foo", "_gpgorigin"}) + strconv.Itoa(n), Data: []byte(r.Str("xyz", r.Intn(20)))})
 	}
 	return m
 }
 
+func (m debModel) pack(ext string, tarBytes []byte, cut int) []byte {
+	if ext == ".zst" && m.ZstWindow > 0 {
+		return zstdRawFrame(tarBytes, m.ZstWindow)
+	}
+	return compressParts(ext, tarBytes, cut)
+}
+
 func (m debModel) members() []arMember {
 	ms := []arMember{{Name: "debian-binary", TS: "0", UID: "0", GID: "0", Mode: "100644", Data: []byte(m.BinaryText)},
-		{Name: "control.tar" + m.CtlExt, TS: "0", UID: "0", GID: "0", Mode: "100644", Data: compressParts(m.CtlExt, buildTar(m.CtlFiles), m.CtlCut)},
-		{Name: "data.tar" + m.DataExt, TS: "0", UID: "0", GID: "0", Mode: "100644", Data: compressParts(m.DataExt, buildTar(m.DataFiles), m.DataCut)}}
+		{Name: "control.tar" + m.CtlExt, TS: "0", UID: "0", GID: "0", Mode: "100644", Data: m.pack(m.CtlExt, buildTar(m.CtlFiles), m.CtlCut)},
+		{Name: "data.tar" + m.DataExt, TS: "0", UID: "0", GID: "0", Mode: "100644", Data: m.pack(m.DataExt, buildTar(m.DataFiles), m.DataCut)}}
 	return append(ms, m.Extra...)
 }
 
@@ -691,7 +766,20 @@ func streamDebfuzz(g *core.G) {
 		m.CtlExt, m.DataExt = r.Pick([]string{"", ".gz"}), r.Pick([]string{"", ".gz"})
 		ms := m.members()
 		var data []byte
-		switch r.Intn(6) {
+		switch r.Intn(7) {
+		case 6: // a tar entry that claims an enormous size (a correctly checksummed base-256 field)
+			sz := r.Pick([]string{"50", "62", "40", "33"})
+			bits, _ := strconv.Atoi(sz)
+			k := 1 + r.Intn(2)
+			inner := buildTar(m.CtlFiles)
+			nm := "control"
+			ext := m.CtlExt
+			if k == 2 {
+				inner, ext = buildTar(m.DataFiles), m.DataExt
+				nm = "usr"
+			}
+			ms[k].Data = compress(ext, tarHugeSize(inner, nm, 1<<uint(bits)))
+			data = buildAr(ms)
 		case 0: // decoy / duplicate members
 			d := ms[r.Intn(len(ms))]
 			if r.Bool() {
@@ -894,6 +982,20 @@ func streamDebsig(g *core.G) {
 				}
 			}
 		}
+		// an emptied signature member (no packet at all), with the signed members intact and with
+		// one of them replaced: there is nothing that verifies
+		for rep := 0; rep < 2; rep++ {
+			bad := append([]arMember{}, ms...)
+			bad[len(bad)-1].Data = nil
+			if rep == 1 {
+				dm := genDebModel(r)
+				bad[1].Data = compress(m.CtlExt, buildTar(dm.CtlFiles))
+			}
+			data := buildAr(bad)
+			emitDebsig(g, data, role, krIn)
+			g.Emit("law-debsig", core.Hex(string(data)), core.Hex(role), core.Hex(serializeKeyring(krIn)), "reject", "")
+			g.Emit("law-debsig", core.Hex(string(data)), core.Hex(role), core.Hex(serializeKeyring(krEmpty)), "reject", "")
+		}
 		// decoy control.* / data.* members before / after the real ones
 		for rep := g.N(3, 8); rep > 0; rep-- {
 			decoy := arMember{Name: r.Pick([]string{"control.tar.gz2", "control.tar", "data.tar.gz2", "data.tar.zz", "control.tar.gz", "data.tar", "control.new.tar", "data.new.tar", "control.old.tar", "data.bak.tar"}), TS: "0", UID: "0", GID: "0", Mode: "100644"}
@@ -932,7 +1034,7 @@ func init() {
 					return fmt.Sprintf("FAIL valid signature not accepted: %v", err)
 				}
 			} else if err == nil {
-				return fmt.Sprintf("FAIL accepted on repetition %d although the package was tampered with / the key or role is wrong", i)
+				return fmt.Sprintf("FAIL accepted on repetition %d (no error, signer %v) although the package was tampered with / the key or role is wrong", i, e != nil)
 			}
 		}
 		return "ok"
